@@ -493,6 +493,32 @@ fn sweep(n: usize, ctx: &Ctx) -> Report {
                 drop(Box::from_raw(c));
             }
             free_weights(w2);
+            // a second run-time variable, created negative, and then both literals of every
+            // run-time label asked for through bdd_var (the constructors must agree with each
+            // other whatever was created before)
+            let nv2 = bdd_new_var(mgr, false);
+            let (l3, nn2) = nb.new_var(false);
+            let n3 = n + 3;
+            let w3 = make_weights(n3, &mut rep);
+            rep.transitions += 1;
+            observe(mgr, nv2, nn2, tt::not(tt::var(l3.value_usize(), n3), n3), n3, &w3, true, "bdd_new_var(false)", &mut rep);
+            for lab in [nl.value(), l2.value(), l3.value()] {
+                for pol in [true, false] {
+                    let x = bdd_var(mgr, lab, pol);
+                    let xn = nb.var(VarLabel::new(lab), pol);
+                    let want = if pol { tt::var(lab as usize, n3) } else { tt::not(tt::var(lab as usize, n3), n3) };
+                    rep.transitions += 1;
+                    observe(mgr, x, xn, want, n3, &w3, true, &format!("bdd_var({}, {}) after bdd_new_label / bdd_new_var(true) / bdd_new_var(false)", lab, pol), &mut rep);
+                    if lab == l3.value() {
+                        let e = bdd_eq(mgr, x, nv2);
+                        if e != !pol {
+                            rep.violation("ffi:eq", format!("bdd_eq(bdd_var({}, {}), bdd_new_var(false)) = {}", lab, pol, e), json!({"kind": "ffi"}));
+                        }
+                    }
+                    drop(Box::from_raw(x));
+                }
+            }
+            free_weights(w3);
         }
         for c in fc {
             drop(Box::from_raw(c));
